@@ -11,6 +11,10 @@ if WORK != ROOT and not os.path.isdir(os.path.join(WORK, "coq")):
     subprocess.run(["rsync", "-a", os.path.join(ROOT, "coq") + "/", os.path.join(WORK, "coq") + "/"], check=True)
     if os.path.isdir(os.path.join(ROOT, "build", "model")):
         subprocess.run(["rsync", "-a", os.path.join(ROOT, "build", "model") + "/", os.path.join(WORK, "build", "model") + "/"], check=False)
+# the OCaml driver is snapshotted with the Coq sources it is compiled against (an isolated run must not see half of a later edit)
+if WORK != ROOT and not os.path.isdir(os.path.join(WORK, "ocaml")):
+    subprocess.run(["rsync", "-a", os.path.join(ROOT, "ocaml") + "/", os.path.join(WORK, "ocaml") + "/"], check=True)
+OCAML = os.path.join(WORK, "ocaml")
 BUILD = os.path.join(WORK, "build")
 COQ = os.path.join(WORK, "coq")
 NCPU = os.cpu_count() or 4
@@ -233,8 +237,8 @@ def build_model(timeout=900):
             if f.endswith(".v"):
                 h.update(open(os.path.join(COQ, f), "rb").read())
         h.update(open(os.path.join(COQ, "gen/Params.v"), "rb").read())
-        for f in sorted(os.listdir(os.path.join(ROOT, "ocaml"))):
-            h.update(open(os.path.join(ROOT, "ocaml", f), "rb").read())
+        for f in sorted(os.listdir(OCAML)):
+            h.update(open(os.path.join(OCAML, f), "rb").read())
         stamp = os.path.join(mdir, "stamp")
         exe = os.path.join(mdir, "driver")
         if os.path.exists(exe) and os.path.exists(stamp) and open(stamp).read() == h.hexdigest():
@@ -242,8 +246,8 @@ def build_model(timeout=900):
         rc, out = sh("coqc -Q %s NTT %s/Extract.v" % (COQ, COQ), cwd=mdir, timeout=timeout)
         if rc != 0:
             return None, "extraction failed:\n" + out[-3000:]
-        for f in os.listdir(os.path.join(ROOT, "ocaml")):
-            shutil.copy(os.path.join(ROOT, "ocaml", f), mdir)
+        for f in os.listdir(OCAML):
+            shutil.copy(os.path.join(OCAML, f), mdir)
         rc, out = sh("ocamlfind ocamlopt -package zarith -linkpkg -w -a -o driver model.mli model.ml driver.ml",
                      cwd=mdir, timeout=timeout)
         if rc != 0:
